@@ -20,6 +20,32 @@ CHECKS = {
    design_ref='DESIGN.md 4 (C24)'),
 }
 
+CHECKS.update({
+ 'C01': dict(
+   category='model_checking', engine='sympeg+refpeg',
+   technique='SMT (z3) query over a bounded symbolic input: live compiled parser model (sympeg) vs reference PEG semantics from the grammar AST (refpeg), acceptance + structural fingerprint; solver-enumerated class witnesses replayed on the real textX for the model clause',
+   text=("Bounded solver verdict per corpus grammar and input length n <= 5 (quick) / 8 (thorough) over a 103-symbol alphabet: "
+         "no input makes the parser compiled by lang.py differ (acceptance, objects per rule, values per attribute) from the documented PEG semantics, "
+         "except through the recorded Arpeggio root cause (node-less success), which is itself a solver predicate. "
+         "The model clause (attribute values, defaults, parent links) is witness replay: one representative per accepted character-class string, "
+         "loaded by the real textX with auto_init_attributes on and off. Grammars are a finite corpus (+ seeded random grammars in the thorough tier)."),
+   design_ref='DESIGN.md 4 (C01)'),
+ 'C02': dict(
+   category='model_checking', engine='sympeg',
+   technique='SMT (z3) query over a bounded symbolic input with a per-object assignment algebra on the live parser model, against the live attribute multiplicities; witnesses replayed on the real textX; class-witness replay against the reference model for order/exactly-once',
+   text=("Bounded solver verdict per grammar of the repeated-assignment family and input length n <= 6 / 9: no accepted input assigns an attribute that "
+         "lang.py typed as single-valued twice in one object (the only way to get 'Multiple assignments' or a silent overwrite); attributes typed as lists "
+         "must be able to collect two values according to a syntactic reference analysis. Value order / exactly-once is witness replay against the reference model."),
+   design_ref='DESIGN.md 4 (C02)'),
+ 'C19': dict(
+   category='model_checking', engine='sympeg',
+   technique='SMT (z3) query over a bounded symbolic input: reachable evaluations sharing a packrat cache slot must have equal outcomes (call-DAG reach conditions from symbolic evaluation of the live parser model); candidates and class witnesses replayed with memoization on/off',
+   text=("Bounded sufficient condition per grammar and input length n <= 5 / 8: the solver shows that no two reachable evaluations that share an Arpeggio cache slot "
+         "(same expression under two whitespace states, or two expression objects sharing one cache dict) have different outcomes; satisfiable pairs are candidates and "
+         "are decided by replay (memoization on vs off: acceptance, model, error position). Plus witness replay on one input per character-class string."),
+   design_ref='DESIGN.md 4 (C19)'),
+})
+
 NA = {
  'C16': "history quantifier over whole-program API calls; no data dimension to make symbolic — only enumeration of concrete call sequences would remain (DESIGN.md 5)",
  'C17': "decided by file-system I/O, glob, abspath and repository objects handed between nested real loads; only enumeration of import graphs would remain (DESIGN.md 5)",
